@@ -1161,6 +1161,206 @@ func ruleStepBuffers(r *Run) {
 		if !bad {
 			o.OK("no iterator field escapes as r.Samples").At(r.pos(fn.Pos()))
 		}
+		// every step that is reported (return true) was written: the caller's buffer is reset/rebuilt
+		// or filled by an inner iterator on that path - never left as the previous step's samples
+		o2 := r.Ob("PV-RESET", shortFuncName(fn)+" step written", "a step that is reported as present (Next returns true) has its samples written on that path: r.Samples is assigned, or r is filled by an inner iterator's Next(r)")
+		var writers []ssa.Instruction
+		for _, gf := range funcGroup(fn) {
+			allInstrs(gf, func(in ssa.Instruction) {
+				switch x := in.(type) {
+				case *ssa.Store:
+					if f, base, ok := fieldNameOf(x.Addr); ok && f == "Samples" && originValueIn(base, funcGroup(fn)) == ssa.Value(fn.Params[1]) {
+						writers = append(writers, x)
+					}
+					// *r = Step{...}
+					if originValueIn(x.Addr, funcGroup(fn)) == ssa.Value(fn.Params[1]) {
+						writers = append(writers, x)
+					}
+				case *ssa.Call:
+					if (invokeIs(x, "Next") || (staticCallee(x) != nil && staticCallee(x).Name() == "Next")) && len(x.Call.Args) > 0 {
+						if originValueIn(x.Call.Args[len(x.Call.Args)-1], funcGroup(fn)) == ssa.Value(fn.Params[1]) {
+							writers = append(writers, x)
+						}
+					}
+				}
+			})
+		}
+		bad2 := false
+		for _, ret := range returnsOf(fn) {
+			for i, lv := range phiLeavesWithPred(ret.Results[0], ret.Block()) {
+				_ = i
+				if isConstBool(lv.V, false) {
+					continue
+				}
+				covered := false
+				for _, wr := range writers {
+					lifted := liftInstr(wr, fn, funcGroup(fn), true)
+					if lifted == nil {
+						continue
+					}
+					if lv.Pred != nil {
+						if lifted.Block().Dominates(lv.Pred) {
+							covered = true
+						}
+					} else if instrDominates(lifted, ret) {
+						covered = true
+					}
+				}
+				if !covered {
+					// a mode fixed at construction (a receiver field that no method ever writes, e.g.
+					// limit == 0): in that mode no call of this instance writes the buffer, so there is
+					// no earlier output of its own to leak
+					blk := ret.Block()
+					if lv.Pred != nil {
+						blk = lv.Pred
+					}
+					facts := factsAt(blk)
+					if lv.Pred != nil {
+						if ef, ok := edgeFact(lv.Pred, lv.At); ok {
+							facts = append(facts, normFact(ef))
+						}
+					}
+					for _, f := range facts {
+						if b, ok := f.Cond.(*ssa.BinOp); ok {
+							for _, pair := range [][2]ssa.Value{{b.X, b.Y}, {b.Y, b.X}} {
+								fld, base, okf := loadOfField(pair[0])
+								_, okc := constOf(pair[1])
+								if okf && okc && unspill(base) == ssa.Value(fn.Params[0]) && !fieldWrittenAfterConstruction(p, fn, fld) {
+									covered = true
+								}
+							}
+						}
+					}
+				}
+				if !covered {
+					bad2 = true
+					o2.Fail(r.pos(ret.Pos()), "Next can return true on a path that neither assigns r.Samples nor fills r from an inner iterator: the caller sees the previous step's samples again")
+				}
+			}
+		}
+		if !bad2 {
+			o2.OK("%d writer(s) of the step; each `return true` is dominated by one", len(writers)).At(r.pos(fn.Pos()))
+		}
 	}
 	r.count("step_iterators", n)
+}
+
+type leafPred struct {
+	V    ssa.Value
+	Pred *ssa.BasicBlock // the predecessor through which the leaf enters the (outermost) phi; nil when v is not a phi
+	At   *ssa.BasicBlock // the block of the phi the leaf enters
+}
+
+// phiLeavesWithPred lists the leaves of a phi tree together with the predecessor block of the
+// edge they arrive on (one level; nested phis report the inner edge's predecessor).
+func phiLeavesWithPred(v ssa.Value, at *ssa.BasicBlock) []leafPred {
+	phi, ok := v.(*ssa.Phi)
+	if !ok {
+		return []leafPred{{v, nil, nil}}
+	}
+	var out []leafPred
+	seen := map[*ssa.Phi]bool{}
+	var walk func(ph *ssa.Phi)
+	walk = func(ph *ssa.Phi) {
+		if seen[ph] {
+			return
+		}
+		seen[ph] = true
+		for i, e := range ph.Edges {
+			if inner, ok := e.(*ssa.Phi); ok {
+				walk(inner)
+				continue
+			}
+			out = append(out, leafPred{e, ph.Block().Preds[i], ph.Block()})
+		}
+	}
+	walk(phi)
+	return out
+}
+
+// fieldWrittenAfterConstruction: is the receiver's field written anywhere but in a composite
+// literal / freshly allocated value (i.e. by a method or function working on an existing value)?
+func fieldWrittenAfterConstruction(p *Program, method *ssa.Function, field string) bool {
+	recvT := typeKey(method.Params[0].Type())
+	written := false
+	for _, fn := range p.SrcFuncs() {
+		pk := fn.Pkg
+		if pk == nil && fn.Parent() != nil {
+			pk = fn.Parent().Pkg
+		}
+		if pk != method.Pkg {
+			continue
+		}
+		allInstrs(fn, func(in ssa.Instruction) {
+			st, ok := in.(*ssa.Store)
+			if !ok {
+				return
+			}
+			f, base, ok := fieldNameOf(st.Addr)
+			if !ok || f != field || typeKey(base.Type()) != recvT {
+				return
+			}
+			if _, fresh := base.(*ssa.Alloc); fresh {
+				return
+			}
+			written = true
+		})
+	}
+	return written
+}
+
+// ruleLiteralBinOpCtor: LiteralBinOp(iter, expr, value, left) applies the operation to every vector:
+// each successful return is a literalBinOpIterator over iter whose operation is
+// buildSampleBinOp(expr), whose scalar is value and whose side flag is left - never the input
+// iterator itself (which would skip the operation) and never a constant side.
+func ruleLiteralBinOpCtor(r *Run) {
+	p := r.P
+	mp := modPath + "/" + metricPkg
+	fn := p.Func(metricPkg, "LiteralBinOp")
+	o := r.Ob("PV-ROLE", "logqlmetric.LiteralBinOp", "a vector-scalar operation always goes through the literal iterator: LiteralBinOp returns &literalBinOpIterator{iter, buildSampleBinOp(expr), value, left} on every successful path")
+	if fn == nil || len(fn.Params) != 4 {
+		o.Fail("-", "function not found")
+		return
+	}
+	w := &feWalker{Fn: fn, MaxPath: 2000}
+	n, bad := 0, false
+	for _, e := range w.Run() {
+		if isErr, known := endReturnsError(e); !known || isErr {
+			continue
+		}
+		if len(e.Results) != 2 {
+			continue
+		}
+		n++
+		al, ok := stripTypeOnly(e.Results[0].V).(*ssa.Alloc)
+		if !ok || typeKey(al.Type()) != "literalBinOpIterator" {
+			bad = true
+			o.Fail(r.pos(e.Term.Pos()), "a successful path returns %s instead of a literalBinOpIterator: the operation is not applied on that path", describe(e.Results[0].V, 1))
+			continue
+		}
+		fs := allocFieldStores(al)
+		if unspill(fs["iter"]) != ssa.Value(fn.Params[0]) {
+			bad = true
+			o.Fail(r.pos(e.Term.Pos()), "the literal iterator reads from %s, not from the iter parameter", describe(fs["iter"], 1))
+		}
+		if c, idx, ok := extractOf(fs["op"]); !ok || idx != 0 || !callIs(c, mp, "buildSampleBinOp") || unspill(c.Call.Args[0]) != ssa.Value(fn.Params[1]) {
+			bad = true
+			o.Fail(r.pos(e.Term.Pos()), "the operation is %s, not buildSampleBinOp(expr)", describe(fs["op"], 1))
+		}
+		if unspill(fs["value"]) != ssa.Value(fn.Params[2]) {
+			bad = true
+			o.Fail(r.pos(e.Term.Pos()), "the scalar is %s, not the value parameter", describe(fs["value"], 1))
+		}
+		if unspill(fs["left"]) != ssa.Value(fn.Params[3]) {
+			bad = true
+			o.Fail(r.pos(e.Term.Pos()), "the side flag is %s, not the left parameter", describe(fs["left"], 1))
+		}
+	}
+	if n == 0 {
+		bad = true
+		o.Fail(r.pos(fn.Pos()), "no successful path")
+	}
+	if !bad {
+		o.OK("%d successful path(s), each builds the literal iterator from the four parameters", n).At(r.pos(fn.Pos()))
+	}
 }
